@@ -190,7 +190,7 @@ def model_jobs(engine, prop, cases, variants_thorough=('asan', 'asan-O0', 'asan-
 def ring_evidence(rule):
     def f(agg, samples, distinct, tier):
         return cov(agg.get('histories', 0), distinct, rule, samples,
-                   observed=pick(agg, 'histories', 'ops', 'nontrivialCases', 'stateComparisons', 'trackedCtors', 'trackedDtors', 'trackedMoves', 'shellDtors'),
+                   observed=pick(agg, 'histories', 'ops', 'nontrivialCases', 'stateComparisons', 'capacitiesOver2G', 'hugeSkipped', 'trackedCtors', 'trackedDtors', 'trackedMoves', 'shellDtors'),
                    operations=agg.get('opCount', {}), operations_on_wrapped_layout=agg.get('opOnWrapped', {}),
                    operations_on_full_buffer=agg.get('opOnFull', {}))
     return f
